@@ -1065,6 +1065,58 @@ class LayoutTranslator:
             out.append("[" + "; ".join(row) + "]")
         return "[" + "; ".join(out) + "]"
 
+    def back_ends(self):
+        """(declared, used): [expected_back_ends] (default "cpp") and every qualifier on an attribute of module 0."""
+        declared = "cpp"
+        for a in self.mod.attribute:
+            if a.name.text == "expected_back_ends" and not a.is_default and not (a.back_end is not None and a.back_end.text):
+                if not a.value.has_field("string_constant"):
+                    raise OutOfModel("expected_back_ends-not-a-string")
+                declared = a.value.string_constant.text
+        declared = [x.strip() for x in declared.split(",") if x.strip()]
+        used = []
+
+        def visit(attrs):
+            for a in attrs:
+                if a.back_end is not None and a.back_end.text and a.back_end.text not in used:
+                    used.append(a.back_end.text)
+
+        def walk(td):
+            visit(td.attribute)
+            if td.has_field("enumeration"):
+                for v in td.enumeration.value:
+                    visit(v.attribute)
+            if td.has_field("structure"):
+                for f in td.structure.field:
+                    visit(f.attribute)
+            for sub in td.subtype:
+                walk(sub)
+        visit(self.mod.attribute)
+        for td in self.mod.type:
+            walk(td)
+        return declared, used
+
+    def effective(self):
+        """From a NORMALISED IR: (byte orders per field, (maximum_bits, is_signed) per enum, fixed size per structure),
+        reading only unqualified, non-default attributes."""
+        en = []
+        for td in self.enums:
+            mb = self.explicit(td.attribute, "maximum_bits")
+            sg = self.explicit(td.attribute, "is_signed")
+            if mb is None or sg is None:
+                raise OutOfModel("enum-not-normalised")
+            mbv = ir_util.constant_value(mb.value.expression)
+            sgv = ir_util.constant_value(sg.value.expression)
+            if not isinstance(sgv, bool) or isinstance(mbv, bool) or mbv is None:
+                raise OutOfModel("enum-attribute-value")
+            en.append("(%s, %s)" % (_z(mbv), "true" if sgv else "false"))
+        st = []
+        for td, _ in self.structs:
+            fx = self.explicit(td.attribute, "fixed_size_in_bits")
+            v = ir_util.constant_value(fx.value.expression) if fx is not None and fx.value.has_field("expression") else None
+            st.append("None" if v is None or isinstance(v, bool) else "Some %s" % _z(v))
+        return "(%s, [%s], [%s])" % (self.field_borders(), "; ".join(en), "; ".join(st))
+
     def translate(self):
         self.collect_all()
         enums = []
@@ -1113,13 +1165,16 @@ class LayoutTranslator:
                 "None" if fxv is None else "(Some %s)" % _z(fxv),
                 ";\n    ".join(self.field(f) for f in td.structure.field),
                 self.attrs(td.attribute), "; ".join(params)))
-        return "(mk_module %s\n [%s]\n [%s])" % (self.attrs(self.mod.attribute), ";\n  ".join(enums), ";\n  ".join(structs))
+        declared, used = self.back_ends()
+        return "(mk_module %s\n [%s]\n [%s]\n [%s] [%s])" % (
+            self.attrs(self.mod.attribute), ";\n  ".join(enums), ";\n  ".join(structs),
+            "; ".join(coq_str(x) for x in declared), "; ".join(coq_str(x) for x in used))
 
 
 # messages of checks inside normalize_and_verify / check_constraints that the Layout model does not mirror
 UNMODELLED_PREFIXES = (
     "Static references must", "Integer range of", "Constant value", "Potential range of", "Either all arguments",
-    "Attribute 'requires' is only allowed", "Back end specifier", "Expected '", "Only values '1'",
+    "Attribute 'requires' is only allowed", "Expected '", "Only values '1'",
     "Attribute 'expected_back_ends'",
 )
 
@@ -1168,7 +1223,7 @@ def _analyse_c14(args):
             except Exception:
                 normalised = False
             if normalised:
-                out["borders"] = LayoutTranslator(ir2).collect_all().field_borders()
+                out["borders"] = LayoutTranslator(ir2).collect_all().effective()
     except OutOfModel as ex:
         out["oom"] = str(ex)
     except TranslatorError as ex:
